@@ -1,6 +1,8 @@
 """C19 - With TLS configured no endpoint is advertised or contacted in plaintext (DESIGN.md section 4, C19).
 
 Streams
+  foreign    the provider alone, talked to by a hand-built peer: every peer-supplied address-like field of every request
+             varies (schemes incl. mixed case, foreign netlocs, paths); compared with Tls.Model.run_foreign
   world      every core configuration (provider TLS x provider server x consumer mode x consumer sink) - in the
              thorough tier the whole configuration space - with a random history of operations; real provider and
              consumer on the loop-back transport (harness/impl/c19_impl.py); compared with Tls.Model.run_case
@@ -97,7 +99,7 @@ def ev_codes(tr):
             continue
         k = KINDS.index(a['kind']) if a['kind'] in KINDS else 99
         s = {'http': 0, 'https': 1}.get(a['scheme'], 7)
-        out.add(100000 + k * 1000 + ROLE.get(a['by'], 7) * 100 + s * 10 + (1 if a['host'] == 'alt' else 0))
+        out.add(100000 + k * 1000 + ROLE.get(a['by'], 7) * 100 + s * 10 + {'ip': 0, 'alt': 1}.get(a['host'], 2))
     for c in tr.get('created', []):
         out.add(200000 + ROLE.get(c['role'], 7) * 100 + CTX.get(c['ctx'], 9) * 10 + (1 if c['host'] == 'alt' else 0))
         if bool(c['tls']) != (c['ctx'] is not None):
@@ -176,7 +178,7 @@ def decode(code):
         kind, r = divmod(r, 1000)
         by, r = divmod(r, 100)
         s, h = divmod(r, 10)
-        return f'Adv {KINDS[kind] if kind < len(KINDS) else "other"} by={"PC?"[min(by, 2)]} {"https" if s == 1 else "http" if s == 0 else "?"} host={"alt" if h else "ip"}'
+        return f'Adv {KINDS[kind] if kind < len(KINDS) else "other"} by={"PC?"[min(by, 2)]} {"https" if s == 1 else "http" if s == 0 else "?"} host={["ip", "alt", "other-netloc"][min(h, 2)]}'
     if k == 2:
         return f'Create role={"PC"[r // 100 % 2]} ssl_context={CTXNAME.get(r // 10 % 10, "?")} host={"alt" if r % 10 else "ip"}'
     if k == 3:
@@ -240,11 +242,105 @@ def oracle_ctx(case, res):
     return None
 
 
+# ----------------------------------------------------------------------------- stream foreign
+F_SCHEMES = ['http', 'http', 'https', 'HtTp', 'HTTPS', 'Http']
+F_NETLOCS = ['self', 'alt', 'other_ip', 'other_name']
+
+
+def gen_faddr(rng, service_bias=0.7, allow_anonymous=False):
+    r = rng.random()
+    if r < 0.08:
+        return None
+    if r < 0.14:
+        return rng.choice(['urn', 'na'] + (['anonymous'] if allow_anonymous else []))
+    pk = 'service' if rng.random() < service_bias else rng.choice(['other', 'slash'])
+    return [rng.choice(F_SCHEMES), rng.choice(F_NETLOCS), pk]
+
+
+def gen_pf(rng):
+    return {'to': gen_faddr(rng), 'reply_to': gen_faddr(rng, 0.3, True) if rng.random() < 0.6 else None,
+            'from': gen_faddr(rng, 0.3) if rng.random() < 0.5 else None,
+            'host': rng.choice(['self', 'self', 'alt', 'other_ip', 'other_name']),
+            'path': rng.choice(['plain'] * 7 + ['slash', 'absolute_http', 'absolute_https'])}
+
+
+def gen_foreign(ctx):
+    """a hand-built peer (not the library consumer) talks to the provider; every peer-supplied address-like field of
+    every request varies over schemes (also mixed case), own / alternative / foreign netlocs, matching / other paths"""
+    rng = ctx.rng
+    cases = []
+    for rep in range(ctx.n(3, 12)):
+        for p_tls, p_srv, sink_tls in itertools.product([False, True], P_SRV, [False, True]):
+            fields = {k: gen_pf(rng) for k in ('get', 'hosted_md', 'probe', 'subscribe', 'getstatus', 'renew', 'unsubscribe')}
+            sub = fields['subscribe']
+            if rng.random() < 0.8:
+                sub['path'] = rng.choice(['plain', 'plain', 'slash'])       # mostly a Subscribe that is dispatched
+            sub['notify_to'] = [rng.choice(F_SCHEMES), 'sink', 'service']
+            sub['end_to'] = [rng.choice(F_SCHEMES), 'sink', 'service'] if rng.random() < 0.7 else None
+            sub['refparam'] = [rng.choice(F_SCHEMES), rng.choice(F_NETLOCS + ['sink']), 'other'] if rng.random() < 0.5 else None
+            cases.append(dict(p_tls=p_tls, p_srv=p_srv, p_alt=rng.random() < 0.5, sink_tls=sink_tls,
+                              sink_alt=rng.random() < 0.5, end=rng.choice(['shutdown', 'unsubscribe']), fields=fields))
+    return cases
+
+
+def lit_faddr(spec, sink_alt):
+    if not isinstance(spec, list):
+        return 'None'
+    host = {'self': 'HIp', 'alt': 'HAlt', 'other_ip': 'HOther', 'other_name': 'HOther',
+            'sink': 'HAlt' if sink_alt else 'HIp'}[spec[1]]
+    return f'(Some (mkaddr {"Https" if spec[0].lower() == "https" else "Http"} {host}))'
+
+
+def lit_pf(f, sink_alt):
+    to = f.get('to')
+    is_service = isinstance(to, list) and to[2] in ('service', 'slash')
+    host = {'self': 'HIp', 'alt': 'HAlt'}.get(f.get('host', 'self'), 'HOther')
+    return (f'(mkpeerf {lit_faddr(to, sink_alt)} {coqlit(is_service)} {lit_faddr(f.get("reply_to"), sink_alt)} '
+            f'{lit_faddr(f.get("from"), sink_alt)} {host} {lit_faddr(f.get("refparam"), sink_alt)})')
+
+
+def lit_fcase(c, tr):
+    """the model's inputs: the requests that the provider answered (HTTP 200), with their peer-chosen fields"""
+    st = tr.get('statuses', {})
+    sa = c['sink_alt']
+    F = c['fields']
+
+    def opt(k):
+        return f'(Some {lit_pf(F[k], sa)})' if st.get(k) == 200 else 'None'
+    srv = 'Own' if c['p_srv'] == 'own' else ('(Shared Https)' if c['p_srv'] == 'https' else '(Shared Http)')
+    sub = 'None'
+    if tr.get('subscribed'):
+        s_ = F['subscribe']
+        end_to = lit_faddr(s_.get('end_to'), sa)
+        sub = f'(Some ({lit_pf(s_, sa)}, {lit_faddr(s_["notify_to"], sa)[6:-1]}, {end_to}))'
+    later = [lit_pf(F[k], sa) for k in ('getstatus', 'renew', 'unsubscribe') if st.get(k) == 200]
+    alive = bool(tr.get('subscribed')) and st.get('unsubscribe') != 200
+    return (f'(mkfcase (mkpconf {coqlit(c["p_tls"])} {srv} {coqlit(c["p_alt"])}) {coqlit(c["sink_tls"])} '
+            f'{opt("get")} {opt("hosted_md")} {opt("probe")} {sub} [{"; ".join(later)}] {coqlit(alive)})')
+
+
+def oracle_foreign(ctx, case, tr):
+    if not case['p_tls']:
+        return 0
+    bad = insecure('P', tr)
+    if case['p_srv'] == 'own' and not tr.get('p_listen_tls'):
+        bad.append(('own-server-not-tls', 'listening socket of the provider not wrapped'))
+    conf = {k: case[k] for k in ('p_tls', 'p_srv', 'p_alt', 'sink_tls', 'sink_alt', 'end')}
+    for clause in sorted({b[0] for b in bad}):
+        ex = [b[1] for b in bad if b[0] == clause][:3]
+        ctx.fail(f'provider configured with TLS, foreign peer: {clause}; e.g. {ex[0]} [configuration {conf}; '
+                 f'peer-chosen fields of the Subscribe: {case["fields"]["subscribe"]}]',
+                 {'stream': 'foreign', 'party': 'provider', 'clause': clause, 'server': case['p_srv']},
+                 {'stream': 'foreign', 'case': case, 'impl_trace': dict(summary(tr), statuses=tr.get('statuses')),
+                  'oracle': {'verdict': 'fail', 'clause': clause, 'examples': ex}})
+    return len(bad)
+
+
 # ----------------------------------------------------------------------------- run
-def run_world(ctx, cases, workers=6):
+def run_world(ctx, cases, workers=6, stream='world'):
     shards = [cases[i::workers] for i in range(workers)]
     with ThreadPoolExecutor(max_workers=workers) as ex:
-        res = list(ex.map(lambda sh: ctx.impl('c19_impl', {'stream': 'world', 'cases': sh}, timeout=1500) if sh else
+        res = list(ex.map(lambda sh: ctx.impl('c19_impl', {'stream': stream, 'cases': sh}, timeout=1500) if sh else
                           {'traces': []}, shards))
     traces = [None] * len(cases)
     for k, r in enumerate(res):
@@ -306,6 +402,47 @@ def run(ctx):
     if pairs:
         i = next((k for k, c in enumerate(cases) if c['c_mode'] == 'enforced' and c['p_tls'] and c['ops']), 0)
         ctx.sample({'stream': 'world', 'case': cases[i], 'impl': summary(traces[i])})
+
+    # ------------------------------------------------------------ stream foreign
+    fcases = gen_foreign(ctx)
+    t0 = time.time()
+    ftraces, err = run_world(ctx, fcases, stream='foreign')
+    ctx.log(f'foreign: {len(fcases)} cases on the implementation in {time.time() - t0:.1f}s')
+    if err:
+        ctx.broken('correspondence', 'foreign (implementation run crashed)', err)
+        ftraces = []
+    fpairs, fkeys, fok = [], [], []
+    fh = {'http_status': {}, 'subscribed': 0, 'notifications_received_by_peer_sink': 0, 'urls_by_kind': {},
+          'peer_field_variants': {}, 'oracle_applicable': 0}
+    for c, tr in zip(fcases, ftraces):
+        if tr is None or 'crash' in tr or tr.get('p_start') != 'ok':
+            ctx.broken('correspondence', 'foreign (harness could not run a case)', {'first': c, 'trace': tr})
+            break
+        oracle_foreign(ctx, c, tr)
+        st = [int(bool(tr.get('p_listen_tls'))), int(not insecure('P', tr))]
+        codes = ev_codes(tr)
+        fpairs.append((f'(AForeign {lit_fcase(c, tr)})', f'({zl(st)}, {zl(codes)})'))
+        fkeys.append((tuple(st), tuple(codes), json.dumps(c['fields'], sort_keys=True)))
+        fok.append((c, tr))
+        for k, v in tr.get('statuses', {}).items():
+            fh['http_status'][f'{k}:{v}'] = fh['http_status'].get(f'{k}:{v}', 0) + 1
+        fh['subscribed'] += int(bool(tr.get('subscribed')))
+        fh['notifications_received_by_peer_sink'] += tr.get('sink_received_total', 0)
+        fh['oracle_applicable'] += int(c['p_tls'])
+        for a in tr['advs']:
+            fh['urls_by_kind'][a['kind']] = fh['urls_by_kind'].get(a['kind'], 0) + 1
+        for f in c['fields'].values():
+            for k in ('to', 'reply_to', 'from', 'notify_to', 'end_to', 'refparam'):
+                v = f.get(k)
+                key = f'{k}:' + (':'.join(v[:2]).lower() if isinstance(v, list) else str(v))
+                fh['peer_field_variants'][key] = fh['peer_field_variants'].get(key, 0) + 1
+            for k in ('host', 'path'):
+                key = f'{k}:{f.get(k)}'
+                fh['peer_field_variants'][key] = fh['peer_field_variants'].get(key, 0) + 1
+    streams.append(('foreign', fpairs))
+    ctx.count('foreign', len(fpairs), fkeys, **fh)
+    if fok:
+        ctx.sample({'stream': 'foreign', 'case': fok[0][0], 'impl': dict(summary(fok[0][1]), statuses=fok[0][1].get('statuses'))})
 
     # ------------------------------------------------------------ stream ctxflags
     ccases = [{'loader': 'defaults'}] + [{'loader': ld, 'ca': ca, 'cyphers': cy}
@@ -382,6 +519,13 @@ def run(ctx):
                     'impl': {'statuses': statuses(c, tr), 'events': [decode(x) for x in ev_codes(tr)],
                              'start_msgs': tr.get('start_msgs')},
                     'model': model[-1800:]})
+    if 'foreign' in by_stream:
+        c, tr = fok[by_stream['foreign'][0]]
+        model = ctx.coq_eval(HEADER, f'run_foreign {lit_fcase(c, tr)}')
+        ctx.broken('correspondence', 'foreign',
+                   {'disagreements': len(by_stream['foreign']), 'first_case': c,
+                    'impl': {'statuses': tr.get('statuses'), 'events': [decode(x) for x in ev_codes(tr)]},
+                    'model': model[-1500:]})
     if 'ctxflags' in by_stream:
         i = by_stream['ctxflags'][0]
         ctx.broken('correspondence', 'ctxflags', {'disagreements': len(by_stream['ctxflags']), 'first_case': ccases[i],
@@ -407,7 +551,14 @@ def run(ctx):
              'two shutdown orders; the outcome of every start attempt and the set '
              'of events (addresses by carrying element, SOAP clients by ssl_context argument, connection objects, '
              'connection attempts, wrap_socket calls) and the final is_ssl_connection are compared with Tls.Model.run_case; '
-             'distinct = distinct (statuses, event set). ctxflags / clientcls: exhaustive over their argument spaces.',
+             'distinct = distinct (statuses, event set). foreign: the real provider (TLS x own/shared http/shared https server x '
+             'alternative host name) driven by a hand-built peer instead of the library consumer: TransferGet, GetMetadata, Probe, '
+             'Subscribe, GetStatus, Renew, a report, Unsubscribe or provider shutdown; every peer-supplied address-like field of every '
+             'request (wsa:To, wsa:ReplyTo, wsa:From, NotifyTo, EndTo, an URL in reference parameters, the Host header, the request '
+             'target: plain / trailing slash / absolute-form) varies over http / https / mixed-case schemes, own / alternative / '
+             'foreign netlocs and matching / other paths; every URL in every response, notification and SubscriptionEnd is judged; the '
+             'model gets the requests that were carried out (HTTP 200, no fault) with their peer fields (Tls.Model.run_foreign = prun). '
+             'ctxflags / clientcls: exhaustive over their argument spaces.',
         assumptions=['the TLS handshake is abstracted: a TLS client meeting a plaintext port gets ssl.SSLError on connect, a '
                      'plaintext client meeting a TLS port has its first request reset (matches the behaviour pinned by '
                      'tests/test_client_device.py TestEncryptionCombinations)',
